@@ -191,6 +191,7 @@ def run_config(ctx, std, cxx, primary):
         pk[1] += sub.stats.get("evaluations", 0)
         pk[2] += sub.stats.get("distinct_nontrivial", 0)
     if primary:
+        ctx.stat("kinds", len(per_kind))
         for kind, pk in sorted(per_kind.items()):
             ctx.note("kind %s: sizes 0..%d, %d law instances, %d non-trivial" % (kind, pk[0], pk[1], pk[2]))
         # Ctx keeps 12 samples: spread them over the kinds instead of taking the first twelve
@@ -203,7 +204,22 @@ def run_config(ctx, std, cxx, primary):
     ctx.note("build %s: %d law instances (sizes: %s)" % (label, n_eval, ", ".join("%s 0..%d" % kv for kv in sorted(nmax.items()))))
 
 
+def probe_array_forms(ctx):
+    """optional manifest entries that are ill-formed on the pinned tree: begin() of the array forms"""
+    src = os.path.join(HERE, "probe_array.cpp")
+    names = {1: "xoptional_array<int,3>::begin()", 2: "xcomplex_array<double,3>::begin()"}
+
+    def job(k):
+        return lambda: vlib.compile_cxx(src, "c12-probe%d" % k, std="c++14", san="none", defines=["C12_PROBE=%d" % k], syntax_only=True, expect_fail=True)
+    for k, r in zip(sorted(names), vlib.parallel([job(k) for k in sorted(names)], workers=2)):
+        if r is None:
+            ctx.note("capability probe: %s is ill-formed on this tree (no executions to check)" % names[k])
+        else:
+            ctx.cap("capability probe: %s has become well-formed, but the array forms are not in the C12 manifest yet: their iterators were NOT explored" % names[k])
+
+
 def run(ctx):
+    probe_array_forms(ctx)
     for (std, cxx, primary) in configs(ctx.tier):
         if ctx.time_left() < 120:
             ctx.cap("deadline: build %s -std=%s not started" % (cxx, std))
